@@ -457,3 +457,33 @@ pub fn replay(sub: &str, case: &Value) -> Result<(), String> {
         _ => Err(format!("unknown sub-check {sub}")),
     }
 }
+
+/// Fuzz entry: bytes -> slab shape + operations -> paired-borrow / model oracle.
+pub fn fuzz_slab(data: &[u8]) -> Result<(), String> {
+    use arbitrary::Unstructured;
+    let mut u = Unstructured::new(data);
+    let count = u.int_in_range(1..=40usize).unwrap_or(1);
+    let ss = match u.int_in_range(0..=2u8).unwrap_or(0) {
+        0 => u.int_in_range(1..=9usize).unwrap_or(1),
+        1 => u.int_in_range(60..=70usize).unwrap_or(60),
+        _ => u.int_in_range(120..=136usize).unwrap_or(120),
+    };
+    let mapping_seed: Option<u64> = if u.arbitrary().unwrap_or(false) { Some(u.arbitrary().unwrap_or(0)) } else { None };
+    let seed: u64 = u.arbitrary().unwrap_or(0);
+    let mut ops = vec![];
+    while !u.is_empty() && ops.len() < 60 {
+        let k: u8 = u.arbitrary().unwrap_or(0);
+        let (dest, src, scalar): (u16, u16, u8) = (u.arbitrary().unwrap_or(0), u.arbitrary().unwrap_or(0), u.arbitrary().unwrap_or(0));
+        ops.push(match k % 9 {
+            0..=2 => SlabOp::Add { dest, src },
+            3..=5 => SlabOp::Fma { dest, src, scalar },
+            6 => SlabOp::Mul { dest, scalar },
+            _ => SlabOp::Pair { dest, src },
+        });
+    }
+    if ops.is_empty() {
+        return Ok(());
+    }
+    let c = SlabCase { count, ss, mapping_seed, seed, ops };
+    slab_check(&c, &mut Stats::new()).map_err(|m| format!("{m} | case {}", slab_json(&c)))
+}
